@@ -12,7 +12,10 @@ From Coq Require Import Qabs.
 From CNV Require Import Base.Prelude Base.Str Model.Decimal.
 From CNV Require Import Model.Call Spec.Call Proofs.Call Model.Export Spec.Export.
 From CNV Require Import Proofs.ExportBed Proofs.ExportSeg Proofs.ExportMatrix Proofs.ExportLabel.
-From CNV Require Model.Formats.
+From CNV Require Import Proofs.ExportRound Proofs.ExportCi Proofs.ExportText Proofs.ExportOgt Proofs.ExportTheta
+  Proofs.FnExport.
+From CNV Require Import Model.Ranges Spec.RangeQuery.
+From CNV Require Model.Formats Model.Vcf Model.VBaf Gen.FnCall Gen.ExportDefaults.
 
 Local Open Scope Z_scope.
 
@@ -45,14 +48,38 @@ Theorem C20_bed_variant :
                    (sp_variant st (lower_build (c_build c)) (c_k c) (c_hapx c) (c_female c) (c_has_cn c)) rows).
 Proof. exact bed_variant. Qed.
 
-(* without a cn column the copy number is a nearest integer to r * 2^log2, r the reference
-   copies of the property's class table *)
+(* without a cn column the copy number is THE integer nearest to r * 2^log2 (r the reference
+   copies of the property's class table), the even one on an exact tie: `half_even n x` is
+   |n - x| <= 1/2 together with (|n - x| = 1/2 -> n even)
+   [strengthened: the statement used to be `nearest` alone] *)
 Theorem C20_ncopies_nearest :
   forall st c s,
     c_has_cn c = false ->
-    nearest (sp_ncopies st (lower_build (c_build c)) (c_k c) (c_hapx c) (c_female c) (c_has_cn c) s)
-            (inject_Z (sp_reference st (lower_build (c_build c)) (c_k c) (c_hapx c) (c_female c) s) * s_e s).
-Proof. exact ncopies_nearest. Qed.
+    half_even (sp_ncopies st (lower_build (c_build c)) (c_k c) (c_hapx c) (c_female c) (c_has_cn c) s)
+              (inject_Z (sp_reference st (lower_build (c_build c)) (c_k c) (c_hapx c) (c_female c) s) * s_e s).
+Proof. exact ncopies_half_even_cfg. Qed.
+
+(* that rule determines the integer, and it is numpy's round (round half to even), the
+   model's round_he *)
+Theorem C20_round_half_even : forall n x, half_even n x <-> n = round_he x.
+Proof. exact half_even_iff. Qed.
+
+(* so the ncopies column the exports compute is, row by row and exactly, round_he (r * 2^log2) *)
+Theorem C20_ncopies_round_he :
+  forall st c rows,
+    consistent st (seg_first rows) -> build_ok (c_build c) -> c_has_cn c = false ->
+    ncopies_col c (seg_first rows) rows
+    = map (fun s => round_he (inject_Z (sp_reference st (lower_build (c_build c)) (c_k c) (c_hapx c) (c_female c) s) * s_e s)) rows.
+Proof. exact ncopies_col_round_he. Qed.
+
+(* source tie: the value that is rounded is the body of call._log2_ratio_to_absolute as
+   translated from the Python source (Gen/FnCall.v), at the exports' purity literal 1.0,
+   for every exp2 supplying the segment's ratio *)
+Theorem C20_source_ncopies :
+  forall (exp2 : Q -> Q) s r x,
+    (s_e s == exp2 (s_v s))%Q ->
+    round_he (Gen.FnCall.fn_log2_ratio_to_absolute exp2 (s_v s) r x (Some 1%Q)) = round_he (absolute_one s r x).
+Proof. exact fn_export_ncopies. Qed.
 
 (* ------------------------------------------------------------------ VCF *)
 
@@ -92,6 +119,110 @@ Theorem C20_vcf_total :
   forall st c rows,
     consistent st (seg_first rows) -> build_ok (c_build c) -> exists recs, segments2vcf c rows None = VcfOk recs.
 Proof. exact vcf_total. Qed.
+
+(* ------------------------------------------------------------------ CIPOS / CIEND *)
+
+(* assign_ci_start_end, against the range-query specification of C07: for every segment, in
+   table order, the end of the first and the start of the last of the .cnr bins that share a
+   base with it on its own chromosome (`outer_spec`), (None, None) = (nan, nan) when there is
+   no such bin.  Preconditions as in C07: the .cnr sorted by start within each chromosome with
+   proper intervals (table_ok), the segments' chromosomes contiguous (grouped). *)
+Theorem C20_vcf_ci_bins :
+  forall bins rows,
+    table_ok (to_trows 0 bins) -> grouped (to_trows 0 (map seg_region rows)) ->
+    assign_ci bins rows
+    = map (fun s => match outer_spec (s_lo s) (s_hi s) (rows_of (s_chrom s) (to_trows 0 bins)) with
+                    | [] => (None, None)
+                    | b :: t => (Some (r_hi b), Some (r_lo (last t b)))
+                    end) rows.
+Proof. exact assign_ci_answers. Qed.
+
+(* with a .cnr: the record of the i-th segment carries CIPOS = (-(right margin of row i-1), left
+   margin of row i) and CIEND = (right margin of row i, left margin of row i+1), 0 at the table's
+   ends, where the left margin is (end of the segment's first bin) - start and the right margin
+   end - (start of its last bin); a segment without bins has missing margins (sp_ci) *)
+Theorem C20_vcf_ci :
+  forall st c rows,
+    consistent st (seg_first rows) -> build_ok (c_build c) -> forall sid tid bins recs,
+    bins <> [] -> table_ok (to_trows 0 bins) -> grouped (to_trows 0 (map seg_region rows)) ->
+    snd (export_vcf c sid tid rows (Some bins)) = VcfOk recs ->
+    map v_ci recs
+    = map (fun i => Some (sp_ci bins rows i))
+          (filter (fun i => sp_variant st (lower_build (c_build c)) (c_k c) (c_hapx c) (c_female c) (c_has_cn c)
+                                       (nth i rows dflt_seg)
+                            && sp_numeric (nth i rows dflt_seg))
+                  (seq 0 (length rows))).
+Proof. exact vcf_ci_spec. Qed.
+
+(* the records carry CIPOS / CIEND iff a non-empty .cnr is given -- for every table and configuration *)
+Theorem C20_vcf_ci_iff :
+  forall c sid tid rows bins recs,
+    snd (export_vcf c sid tid rows bins) = VcfOk recs ->
+    Forall (fun r => (exists q, v_ci r = Some q) <-> cnr_given bins = true) recs.
+Proof. exact vcf_ci_iff. Qed.
+
+(* ------------------------------------------------------------------ VCF text *)
+
+(* the header: the fixed VCFv4.2 lines; only the date and the version vary *)
+Theorem C20_vcf_text_header :
+  forall date version,
+    vcf_header_lines date version =
+    ["##fileformat=VCFv4.2";
+     "##fileDate=" ++ date;
+     "##source=CNVkit v" ++ version;
+     "##INFO=<ID=CIEND,Number=2,Type=Integer,Description=""Confidence interval around END for imprecise variants"">";
+     "##INFO=<ID=CIPOS,Number=2,Type=Integer,Description=""Confidence interval around POS for imprecise variants"">";
+     "##INFO=<ID=END,Number=1,Type=Integer,Description=""End position of the variant described in this record"">";
+     "##INFO=<ID=IMPRECISE,Number=0,Type=Flag,Description=""Imprecise structural variation"">";
+     "##INFO=<ID=SVLEN,Number=1,Type=Integer,Description=""Difference in length between REF and ALT alleles"">";
+     "##INFO=<ID=SVTYPE,Number=1,Type=String,Description=""Type of structural variant"">";
+     "##INFO=<ID=FOLD_CHANGE,Number=1,Type=Float,Description=""Fold change"">";
+     "##INFO=<ID=FOLD_CHANGE_LOG,Number=1,Type=Float,Description=""Log fold change"">";
+     "##INFO=<ID=PROBES,Number=1,Type=Integer,Description=""Number of probes in CNV"">";
+     "##ALT=<ID=DEL,Description=""Deletion"">";
+     "##ALT=<ID=DUP,Description=""Duplication"">";
+     "##ALT=<ID=CNV,Description=""Copy number variable region"">";
+     "##FORMAT=<ID=GT,Number=1,Type=String,Description=""Genotype"">";
+     "##FORMAT=<ID=GQ,Number=1,Type=Float,Description=""Genotype quality"">";
+     "##FORMAT=<ID=CN,Number=1,Type=Integer,Description=""Copy number genotype for imprecise events"">";
+     "##FORMAT=<ID=CNQ,Number=1,Type=Float,Description=""Copy number genotype quality for imprecise events"">"]%string.
+Proof. exact vcf_header_spec. Qed.
+
+(* the column line: the nine fixed VCF columns, then the given sample id (the table's when none
+   / an empty one is given), tab-separated *)
+Theorem C20_vcf_text_columns :
+  forall c sample_id table_id rows bins toks body,
+    export_vcf_text c sample_id table_id rows bins toks = TextOk body ->
+    hd_error body = Some (sp_vcf_column_line (match sample_id with
+                                               | Some s => if String.eqb s "" then table_id else s
+                                               | None => table_id
+                                               end)).
+Proof. exact vcf_text_columns. Qed.
+
+(* every record line: chrom, POS, ".", "N", <SVTYPE>, ".", ".", INFO, FORMAT, sample joined by tabs,
+   INFO = IMPRECISE;SVTYPE=..;END=..;SVLEN=..;FOLD_CHANGE=..;FOLD_CHANGE_LOG=..;PROBES=..[;CIPOS=..;CIEND=..]
+   (tok = the two float texts, cit = the CI texts when there are any) *)
+Theorem C20_vcf_text_line :
+  forall c rows ci recs,
+    segments2vcf c rows ci = VcfOk recs ->
+    forall r, In r recs -> forall tok cit, vcf_line r tok cit = sp_vcf_line r tok cit.
+Proof. exact vcf_text_line. Qed.
+
+(* the CI texts when every segment of the table has a bin: CIPOS=(a,b) / CIEND=(c,d) with the
+   margins of C20_vcf_ci printed as integers *)
+Theorem C20_vcf_text_ci :
+  forall st c rows,
+    consistent st (seg_first rows) -> build_ok (c_build c) -> forall bins,
+    bins <> [] -> rows <> [] ->
+    table_ok (to_trows 0 bins) -> grouped (to_trows 0 (map seg_region rows)) ->
+    Forall (fun s => sp_bins_in bins s <> []) rows ->
+    vcf_ci_texts c rows (vcf_ci_source (Some bins) rows)
+    = map (fun i => Some (sp_ci_text (sp_ci bins rows i)))
+          (filter (fun i => sp_variant st (lower_build (c_build c)) (c_k c) (c_hapx c) (c_female c) (c_has_cn c)
+                                       (nth i rows dflt_seg)
+                            && sp_numeric (nth i rows dflt_seg))
+                  (seq 0 (length rows))).
+Proof. exact vcf_ci_texts_spec. Qed.
 
 (* ------------------------------------------------------------------ SEG *)
 
@@ -154,6 +285,98 @@ Proof. exact fmt_jtv_spec. Qed.
 Theorem C20_nexus_basic : forall bins, export_nexus_basic bins = map sp_nexus_row bins.
 Proof. exact nexus_spec. Qed.
 
+(* ------------------------------------------------------------------ nexus-ogt *)
+
+(* one row per bin that passes the weight threshold (dropped iff a threshold is given, the table
+   has weights and the bin's weight is a number below it), in order: chromosome, start (0-based,
+   as in the table), end, log2 and the bin's OWN B-allele frequency -- C18's per-range summary
+   (C18_baf) of the heterozygous variants sharing a base with the bin, majority direction *)
+Theorem C20_nexus_ogt :
+  forall paired vrows mw hw bins,
+    filter (sp_ogt_keeps mw hw) bins <> [] ->
+    export_nexus_ogt paired vrows mw hw bins
+    = Some (map (fun b => (o_chrom b, o_lo b, o_hi b, o_v b,
+                           VBaf.series2value None (VBaf.hits_of (VBaf.heterozygous vrows) (o_chrom b, o_lo b, o_hi b))))
+                (filter (sp_ogt_keeps mw hw) bins)).
+Proof. exact nexus_ogt_spec. Qed.
+
+(* the row set and the coordinates, for every outcome *)
+Theorem C20_nexus_ogt_rows :
+  forall paired vrows mw hw bins out,
+    export_nexus_ogt paired vrows mw hw bins = Some out ->
+    map (fun r : ogt_row => fst r) out
+    = map (fun b => (o_chrom b, o_lo b, o_hi b, o_v b)) (filter (sp_ogt_keeps mw hw) bins).
+Proof. exact nexus_ogt_rows. Qed.
+
+(* threshold 0 (the default) or no weight column: every bin is listed *)
+Theorem C20_nexus_ogt_all :
+  forall mw hw bins, (mw == 0)%Q \/ hw = false -> filter (sp_ogt_keeps mw hw) bins = bins.
+Proof. exact ogt_keeps_all. Qed.
+
+(* ------------------------------------------------------------------ THetA *)
+
+(* the autosome test is the regular expression the code holds, read as: an integer name with an
+   optional "chr" prefix *)
+Theorem C20_theta_autosome_name :
+  Gen.ExportDefaults.theta_autosome_pattern = "(chr)?\d+$"%string /\ forall s, is_auto_name s = sp_is_auto s.
+Proof. exact theta_autosome_name. Qed.
+
+(* without a normal / reference (None or an empty table): one row per autosomal segment (the whole
+   table when no chromosome has an integer name), in order, with #ID start_<chrm>_<start>:end_<chrm>_<end>,
+   chrm = 1-based rank of the chromosome's first appearance, the 0-based start and the end as in
+   the table; tumorCount = round(nbins * 200 * (2^log2 * 500) / 100), normalCount the same at ratio 1 *)
+Theorem C20_theta_rows :
+  forall hp hw rows normal en,
+    rows <> [] -> normal = None \/ normal = Some [] ->
+    exists out,
+      export_theta hp hw rows normal en = ThetaOk out /\
+      map row_key out = map (sp_theta_key (sp_theta_kept rows)) (sp_theta_kept rows) /\
+      map row_counts out
+      = combine (map2 (fun s nb => round_he (sp_theta_value (t_e s) nb)) (sp_theta_kept rows)
+                      (theta_nbins hp hw (sp_theta_kept rows)))
+                (map (fun nb => round_he (sp_theta_value 1 nb)) (theta_nbins hp hw (sp_theta_kept rows))).
+Proof. exact theta_plain. Qed.
+
+(* the bin counts used there are the specification's (sp_theta_nbins), up to ==; m is the largest weight *)
+Theorem C20_theta_nbins :
+  forall hp hw segs,
+    Forall2 Qeq (theta_nbins hp hw segs) (sp_theta_nbins hp hw (qmaxl (map t_weight segs)) segs).
+Proof. exact theta_nbins_spec. Qed.
+
+Theorem C20_theta_max :
+  forall l, l <> [] -> In (qmaxl l) l /\ Forall (fun x => (x <= qmaxl l)%Q) l.
+Proof. exact qmaxl_spec. Qed.
+
+(* with a normal / reference and a probes column: the same rows; tumorCount from the probe count,
+   normalCount from the probe count and 2^(reference mean) (en, supplied per kept segment), 0 for a
+   segment none of the normal's autosomal bins overlaps *)
+Theorem C20_theta_normal :
+  forall hw rows nb en,
+    rows <> [] -> nb <> [] -> length en = length (sp_theta_kept rows) ->
+    table_ok (to_trows 0 (map nb_region (sp_theta_normal nb))) ->
+    grouped (to_trows 0 (map tseg_region (sp_theta_kept rows))) ->
+    exists out,
+      export_theta true hw rows (Some nb) en = ThetaOk out /\
+      map row_key out = map (sp_theta_key (sp_theta_kept rows)) (sp_theta_kept rows) /\
+      map row_counts out
+      = map2 (fun s e => (round_he (sp_theta_value (t_e s) (inject_Z (t_probes s))),
+                          match sp_normal_log2 (sp_theta_normal nb) s with
+                          | [] => 0
+                          | _ => round_he (sp_theta_value e (inject_Z (t_probes s)))
+                          end))
+             (sp_theta_kept rows) en.
+Proof. exact theta_with_normal. Qed.
+
+(* the reference mean of a segment: the mean of the log2 of the normal's bins sharing a base with
+   it on its chromosome (C07 outer selection), missing when there is none *)
+Theorem C20_theta_ref_means :
+  forall normal segs,
+    table_ok (to_trows 0 (map nb_region normal)) -> grouped (to_trows 0 (map tseg_region segs)) ->
+    theta_ref_means normal segs
+    = map (fun s => match sp_normal_log2 normal s with [] => None | l => Some (qmean l) end) segs
+    /\ forall l, (qmean l == sp_mean l)%Q.
+Proof. exact theta_ref_means_full. Qed.
+
 (* ------------------------------------------------------------------ examples *)
 
 Definition ex_cfg : cfg := mkCfg 2 true false (Some "grch37"%string) false.
@@ -196,3 +419,50 @@ Example C20_ex_matrix :
   merge_samples [("s1", a); ("s1", b)]%string = MergeDuplicate "s1" /\
   merge_samples [("s1", a); ("s2", [mkBin "chr1" 0 11 "g" 3])]%string = MergeMismatch 1.
 Proof. vm_compute. repeat split; try reflexivity. constructor; [reflexivity | constructor]. Qed.
+
+(* CIPOS / CIEND: the preconditions of C20_vcf_ci are satisfiable; the margins of a small table
+   (the first segment of chr2 inherits -80 from the last segment of chr1: rows, not chromosomes) *)
+Definition ex_ci_rows : list seg :=
+  [mkSeg "chr1" 0 100 "-" 1 2 3 (Some 5); mkSeg "chr1" 100 200 "-" 0 1 2 (Some 4); mkSeg "chr2" 0 50 "-" 1 2 4 (Some 2)]%string.
+Definition ex_ci_bins : list (string * Z * Z) := [("chr1", 0, 100); ("chr1", 120, 200); ("chr2", 10, 20)]%string.
+
+Example C20_ex_ci_pre : table_ok (to_trows 0 ex_ci_bins) /\ grouped (to_trows 0 (map seg_region ex_ci_rows)).
+Proof.
+  split; [|reflexivity].
+  intros c. unfold rows_of, of_chrom, ex_ci_bins. cbn [to_trows map filter fst].
+  destruct (String.eqb "chr1" c) eqn:E1; destruct (String.eqb "chr2" c) eqn:E2;
+    try (apply String.eqb_eq in E1; apply String.eqb_eq in E2; congruence);
+    cbn [map snd]; split; unfold sorted_lo; repeat constructor; cbn; lia.
+Qed.
+
+Example C20_ex_ci :
+  map (sp_ci ex_ci_bins ex_ci_rows) [0; 1; 2]%nat
+  = [((Some 0, Some 100), (Some 100, Some 100)); ((Some (-100), Some 100), (Some 80, Some 20));
+     ((Some (-80), Some 20), (Some 40, Some 0))] /\
+  map sp_ci_text (map (sp_ci ex_ci_bins ex_ci_rows) [1]%nat) = [("CIPOS=(-100,100)", "CIEND=(80,20)")]%string /\
+  assign_ci ex_ci_bins ex_ci_rows = [(Some 100, Some 0); (Some 200, Some 120); (Some 20, Some 10)].
+Proof. vm_compute. repeat split; reflexivity. Qed.
+
+(* a record line of the text layer *)
+Example C20_ex_text :
+  export_vcf_text ex_cfg (Some "S1"%string) "tbl" [mkSeg "chr1" 0 100 "A" 1 2 0 (Some 3)]%string None [("2.0", "1.0")]%string
+  = TextOk [sp_vcf_column_line "S1";
+            ("chr1" ++ sp_tab ++ "1" ++ sp_tab ++ "." ++ sp_tab ++ "N" ++ sp_tab ++ "<DUP>" ++ sp_tab ++ "." ++ sp_tab ++ "."
+             ++ sp_tab ++ "IMPRECISE;SVTYPE=DUP;END=100;SVLEN=100;FOLD_CHANGE=2.0;FOLD_CHANGE_LOG=1.0;PROBES=3"
+             ++ sp_tab ++ "GT:GQ:CN:CNQ" ++ sp_tab ++ "0/1:0:4:3")%string].
+Proof. vm_compute. reflexivity. Qed.
+
+(* nexus-ogt: the bin below the threshold is dropped (the canonical input of the repaired
+   defect, here without variants) *)
+Example C20_ex_ogt :
+  export_nexus_ogt false [] (1 # 2) true [mkObin "chr1" 0 100 0 (Some (1 # 10)); mkObin "chr1" 100 200 0 (Some 1%Q)]%string
+  = Some [("chr1", 100, 200, 0%Q, Vcf.XNaN)]%string.
+Proof. vm_compute. reflexivity. Qed.
+
+(* THetA: sex chromosomes dropped, chrm = rank of first appearance, 62.5 rounds to 62 (even);
+   with a normal but no probes column the export fails *)
+Example C20_ex_theta :
+  export_theta true false [mkTseg "chr3" 0 100 (1 # 16) 1 1; mkTseg "chr1" 300 400 1 3 1; mkTseg "chrX" 0 1000 1 7 1]%string None []
+  = ThetaOk [("start_1_0:end_1_100", 1, 0, 100, 62, 1000); ("start_2_300:end_2_400", 2, 300, 400, 3000, 3000)]%string /\
+  export_theta false false [mkTseg "chr3" 0 100 1 1 1]%string (Some [("chr3", 0, 50, 0%Q)]%string) [1%Q] = ThetaAttr.
+Proof. vm_compute. split; reflexivity. Qed.
